@@ -113,6 +113,14 @@ def canonicalise(tree):
             while i < len(block):
                 st = block[i]
                 if isinstance(st, ast.Assign) and len(st.targets) == 1 and isinstance(st.targets[0], ast.Tuple) and isinstance(st.value, ast.Tuple) \
+                        and len(st.targets[0].elts) == len(st.value.elts) and all(isinstance(t, ast.Attribute) and isinstance(t.value, ast.Name) for t in st.targets[0].elts) \
+                        and all(isinstance(v, (ast.Constant, ast.Dict, ast.List, ast.Set, ast.Tuple)) and not any(isinstance(x, (ast.Name, ast.Attribute, ast.Call)) for x in ast.walk(v))
+                                for v in st.value.elts):
+                    # self.a, self.b = {}, {}  ->  two assignments (literal values: nothing on the right reads a target)
+                    block[i:i + 1] = [ast.copy_location(ast.Assign(targets=[t], value=v, lineno=st.lineno), st) for t, v in zip(st.targets[0].elts, st.value.elts)]
+                    i += len(st.value.elts)
+                    continue
+                if isinstance(st, ast.Assign) and len(st.targets) == 1 and isinstance(st.targets[0], ast.Tuple) and isinstance(st.value, ast.Tuple) \
                         and len(st.targets[0].elts) == len(st.value.elts) and all(isinstance(t, ast.Name) for t in st.targets[0].elts):
                     tnames = [t.id for t in st.targets[0].elts]
                     reads = {x.id for v in st.value.elts for x in ast.walk(v) if isinstance(x, ast.Name)}
